@@ -17,6 +17,7 @@ Families
 """
 
 import itertools
+import os
 import json
 import re
 
@@ -70,11 +71,12 @@ FREE_TOK = {
              ')s', '"', '\n', ' ', 'x', '&dtml-x', '&dtml.q-x', '\r'],
     'String': ['%', '%(', ')', ')s', ')[', ')]', '%%', '(', 'x)', '<', '<dtml-',
                '>', '&dtml-', ';', '"', '\n', ' ', 'x', '[', ']', 's', '!',
-               'var x'],
+               'var x', '-', '+', '#', 'S', '5', '.'],
 }
 FRAGS = ['<', '<d', '<!--', '&dt', '%', '"', "'", '\n', ' \n', 'ab',
          '\t \n', '\r\n', '\xa0\n', '\x0c\n', '&dtml-', '&dtml.u', ';',
-         '', ' ', ' \t']       # '' = the slot is empty; blanks only
+         '', ' ', ' \t',       # '' = the slot is empty; blanks only
+         '%(a) b', '%(a)-s', '%(a)#x ', '50%(b) of']
 NAMESPACES = [
     {'x': ['lit', 1], 'seq': ['seq', 'list', [['lit', 7], ['lit', 8]]]},
     {'x': ['lit', 0], 'seq': ['seq', 'list', [['lit', 7], ['lit', 8]]]},
@@ -230,8 +232,72 @@ def apply_eol(nodes, after_edge=False):
 
 # ---------------------------------------------------------------- cases
 
+# sources for the file-based template classes: literal text of every kind
+# (also beyond ASCII and Latin-1) alone and around / inside tags
+FILE_TEXTS = ['plain', 'caf\xe9', '\u20ac 5', 'na\xefve \U0001F600 x', '\xa0',
+              'a\nb', '50% <b> &amp; "q"']
+FILE_SHAPES = {
+    'HTML': ['%s', '%s<dtml-var v>%s', '<dtml-if x>%s\n<dtml-else>%s</dtml-if>'
+             '%s', '<dtml-in seq>%s&dtml-sequence-item;</dtml-in>%s',
+             '<!--#var v-->%s'],
+    'String': ['%s', '%s%%(v)s%s', '%%(if x)[%s\n%%(else x)[%s%%(if x)]%s',
+               '%%(in seq)[%s%%(sequence-item)s%%(in seq)]%s'],
+}
+
+
+def file_sources(cls):
+    for shape in FILE_SHAPES[cls]:
+        k = shape.count('%s')
+        for texts in itertools.product(FILE_TEXTS, repeat=min(k, 2)):
+            texts = (texts + (FILE_TEXTS[1],) * k)[:k]
+            yield shape % texts
+
+
+def run_file(res, case):
+    """A file-based template renders as the string-based template made from
+    the text of the file (the file is written and read with the platform's
+    default text encoding)."""
+    import shutil
+    import tempfile
+    import DocumentTemplate
+    from DocumentTemplate.DT_String import File
+    from ..probes import World
+    cls = case['cls']
+    fcls = File if cls == 'String' else DocumentTemplate.HTMLFile
+    d = tempfile.mkdtemp(prefix='dtmc-c01.')
+    n = 0
+    try:
+        for i, src in enumerate(file_sources(cls)):
+            path = os.path.join(d, 't%d.dtml' % i)
+            try:
+                with open(path, 'w', newline='') as f:
+                    f.write(src)
+            except UnicodeEncodeError:
+                continue        # not a text of this platform's default codec
+            for ns in NAMESPACES[:2]:
+                outs = []
+                for make in (lambda: getattr(DocumentTemplate, cls)(src),
+                             lambda: fcls(path)):
+                    built = World('impl').build_ns(dict(COMMON, **ns))
+                    try:
+                        outs.append(make()(**built))
+                    except Exception as e:
+                        outs.append('EXC ' + type(e).__name__)
+                n += 1
+                if outs[0] != outs[1]:
+                    res.violate('verbatim', 'file:%s' % cls,
+                                {'source': src, 'string_based': outs[0],
+                                 'file_based': outs[1]})
+    finally:
+        shutil.rmtree(d, ignore_errors=True)
+    res.evals = n
+    res.nt_count = n
+
+
 def cases(tier):
     n = 3 if tier == 'quick' else 4
+    for cls in ('HTML', 'String'):
+        yield {'fam': 'file', 'cls': cls}
     for cls in ('HTML', 'String'):
         toks = FREE_TOK[cls]
         for a in range(len(toks)):
@@ -441,6 +507,8 @@ def run(case):
         run_free(res, case)
     elif fam == 'tagged':
         run_tagged(res, case)
+    elif fam == 'file':
+        run_file(res, case)
     elif fam == 'one-free':
         got = render(case['cls'], case['src'], {})
         if got != case['src']:
